@@ -596,6 +596,7 @@ def polygon_rules(repo, res, RULE="G1-SHAPE-AGREE"):
 
         for nm in ("less_equal", "less", "greater_equal", "greater"):
             ev.model_calls["numpy.%s" % nm] = cmp(nm)
+        ev.oracle = lambda kind, a, b: cmp({"LtE": "<=", "Lt": "<", "GtE": ">=", "Gt": ">"}[kind])([a, b], {}) if kind in ("LtE", "Lt", "GtE", "Gt") else None
         ev.model_calls["numpy.all"] = lambda a, k: all(a[0].items) if isinstance(a[0], ListV) else (_ for _ in ()).throw(Undecided("numpy.all of %s" % show(a[0])))
         ev.model_calls["numpy.any"] = lambda a, k: any(a[0].items) if isinstance(a[0], ListV) else (_ for _ in ()).throw(Undecided("numpy.any of %s" % show(a[0])))
 
